@@ -171,14 +171,86 @@ def run_purefid(ctx, states):
             ctx.violation('C12:exception:get_fidelity', type(ex).__name__ + ': ' + str(ex)[:160], data)
 
 
+def run_qubit(ctx, quick):
+    """genuinely quantum pairs: exact Bloch-ball model (MC_Qubit) - exhaustive theorem check, then a residue class of the
+    instances replayed into the built-in noise channels / unitaries, get_trace_distance and get_fidelity"""
+    import os, numqi
+    ch = numqi.channel
+    t = 'q' if quick else 't'
+    r = tlc.run('tensor/MC_Qubit.tla', 'tensor/MC_Qubit_%s.cfg' % t, timeout=3000)
+    ctx.add_model('MC_Qubit(all)', r)
+    base = open(os.path.join(tlc.SPECS, 'tensor/MC_Qubit_%ss.cfg' % t)).read()
+    mod = int(base.split('SampleMod = ')[1].split()[0])
+    cfgp = os.path.join(tlc.scratch(), 'MC_Qubit_sample.cfg')
+    with open(cfgp, 'w') as f:
+        f.write(base.replace('SampleRes = 3', 'SampleRes = %d' % ((ctx.seed * 31 + 3) % mod)))
+    r = tlc.run('tensor/MC_Qubit.tla', cfgp, dump=True, timeout=3000)
+    ctx.add_model('MC_Qubit(residue class mod %d)' % mod, r)
+    X = np.array([[0, 1], [1, 0]], dtype=complex); Y = np.array([[0, -1j], [1j, 0]]); Z = np.diag([1, -1]).astype(complex); I2 = np.eye(2, dtype=complex)
+    dm = lambda r3: (I2 + r3[0] * X + r3[1] * Y + r3[2] * Z) / 2
+    n = 0
+    for st in tlc.parse_dump(r):
+        cfg, obs = st['cfg'], st['obs']
+        c = cfg['ch']
+        Du, Dv, m = cfg['Du'], cfg['Dv'], obs['m']
+        u, v = cfg['u'], cfg['v']
+        rho, sig = dm(np.array(u[:3]) / Du), dm(np.array(v[:3]) / Dv)
+        if c['kind'] == 'unitary':
+            a, b, cc, d = c['q']
+            K = ((a * I2 - 1j * (b * X + cc * Y + d * Z)) / 3)[None]
+        else:
+            K = getattr(ch, 'hf_%s_kraus_op' % c['kind'])(c['j'] / 25)
+        data = dict(channel=c['kind'], rate='%d/25' % c['j'] if c['kind'] != 'unitary' else None, quaternion=c['q'] or None, r=[u[:3], Du], s=[v[:3], Dv])
+        ctx.case(('qubit', c['kind'], c['j'], tuple(c['q'] or ()), tuple(u), Du, tuple(v), Dv))
+        n += 1
+        try:
+            M, N = m * Du, m * Dv
+            rho1, sig1 = dm(np.array(obs['u1']) / M), dm(np.array(obs['v1']) / N)
+            outs = dict(apply_kraus_op=(ch.apply_kraus_op(K, rho), ch.apply_kraus_op(K, sig)))
+            C = ch.kraus_op_to_choi_op(K)
+            S = ch.kraus_op_to_super_op(K)
+            outs['apply_choi_op'] = (ch.apply_choi_op(C, rho), ch.apply_choi_op(C, sig))
+            outs['apply_super_op'] = (ch.apply_super_op(S, rho), ch.apply_super_op(S, sig))
+            for fn, (o1, o2) in outs.items():
+                if np.abs(o1 - rho1).max() > TOL or np.abs(o2 - sig1).max() > TOL:
+                    ctx.violation('C12:%s:qubit-%s' % (fn, c['kind']), 'output state differs from the exact affine Bloch image', data)
+            o1, o2 = outs['apply_kraus_op']
+            T0, T1 = np.sqrt(obs['d2']) / (2 * Du * Dv), np.sqrt(obs['d2a']) / (2 * m * Du * Dv)
+            F0 = obs['fnum'] / (2 * Du * Dv)
+            F1 = (M * N + obs['dot1'] + np.sqrt(float(obs['a']) * float(obs['b']))) / (2 * M * N)
+            pure = u[3] == 0 or v[3] == 0 or obs['a'] == 0 or obs['b'] == 0     # rank-deficient arguments: sqrtm accurate to sqrt(eps) only
+            ftol = 1e-6 if pure else 1e-8
+            g = numqi.utils.get_trace_distance
+            F = numqi.utils.get_fidelity
+            t0, t1 = g(rho, sig), g(o1, o2)
+            if abs(t0 - T0) > 1e-8 or abs(g(sig, rho) - T0) > 1e-8:
+                ctx.violation('C12:get_trace_distance:qubit', 'trace distance differs from |r-s|/2 = %.12g (got %.12g)' % (T0, t0), data)
+            if abs(t1 - T1) > 1e-8:
+                ctx.violation('C12:get_trace_distance:qubit-after-channel', 'trace distance after the channel differs from the exact value %.12g (got %.12g); contraction is proved on the exact values' % (T1, t1), data)
+            if t1 > t0 + 1e-9:
+                ctx.violation('C12:get_trace_distance:contractive', 'trace distance increased under %s' % c['kind'], data)
+            f0, f0s, f1 = F(rho, sig), F(sig, rho), F(o1, o2)
+            if not (abs(f0 - F0) <= ftol and abs(f0s - F0) <= ftol):
+                ctx.violation('C12:get_fidelity:qubit', 'fidelity differs from the exact value %.12g (got %.12g / swapped %.12g)' % (F0, f0, f0s), data)
+            if not abs(f1 - F1) <= ftol:
+                ctx.violation('C12:get_fidelity:qubit-after-channel', 'fidelity after the channel differs from the exact value %.12g (got %.12g); monotonicity is proved on the exact values' % (F1, f1), data)
+            if f1 < f0 - 2 * ftol or not (-ftol <= f1 <= 1 + ftol):
+                ctx.violation('C12:get_fidelity:monotone', 'fidelity decreased under %s or left [0,1]' % c['kind'], data)
+            ctx.evaluations += 9
+        except Exception as ex:
+            ctx.violation('C12:exception:qubit', type(ex).__name__ + ': ' + str(ex)[:160], data)
+    ctx.traces += n
+    ctx.sample(dict(kind='qubit-pair', cfg=cfg, obs=obs))
+
+
 def run(ctx):
     quick = ctx.tier == 'quick'
     rng = random.Random(ctx.seed)
     ctx.rule = ('channels: every (dim_in, dim_out) in 1..%d incl. non-square, 1..%d Kraus terms with Gaussian-integer entries plus trace-preserving integer families; every matrix unit through all '
                 'three apply forms and all conversions; built-in noise channels at rates 0,1/4,1/2,3/4,1; classical subdomain: diagonal rational states x relabelling channels (exhaustive model, '
-                '%s instances replayed); distinct by instance' % (3 if quick else 4, 2 if quick else 4, '600' if quick else 'all'))
+                '%s instances replayed); qubit pairs: every rational Bloch-ball point with rational purity defect (denominators %s) x dephasing / depolarizing / amplitude damping at 4-5 rates x 5 rational unitaries, exhaustive theorem check and one residue class of instances replayed; distinct by instance' % (3 if quick else 4, 2 if quick else 4, '600' if quick else 'all', '{3,5}x{2,3}' if quick else '{2,3,5,7}x{1,3,5,6}'))
     ctx.assumptions = ['TLC/SANY correct', 'tolerance 1e-9 (1e-8 for eigen-decomposition based routines)', 'Gell-Mann coordinates verified by C16']
-    ctx.not_covered = ['relative entropy / von Neumann entropy (logarithms - no exact model)', 'contractivity for genuinely quantum pairs of states', 'fidelity after a non-injective channel only as an inequality']
+    ctx.not_covered = ['relative entropy / von Neumann entropy (logarithms - no exact model)', 'contractivity for quantum pairs beyond one qubit (qubit pairs: exact Bloch-ball model MC_Qubit)', 'fidelity after a non-injective relabelling channel only as an inequality']
     r = tlc.run('tensor/MC_Channel.tla', 'tensor/MC_Channel_%s.cfg' % ('q' if quick else 't'), dump=True, timeout=3000)
     ctx.add_model('MC_Channel', r)
     sts = list(tlc.parse_dump(r))
@@ -194,6 +266,7 @@ def run(ctx):
     ctx.add_model('MC_Classical', r)
     sts = list(tlc.parse_dump(r))
     run_classical(ctx, sts, rng, 600 if quick else 10**9)
+    run_qubit(ctx, quick)
     ctx.traces += min(len(sts), 600 if quick else 10**9)
 
 
